@@ -38,7 +38,8 @@ class DPT2ByteUnsigned(DPTNumeric):
         try:
             if not cls._test_boundaries(int(value)):
                 raise ValueError("Value out of range")
-            knx_value = int(value) // cls.resolution
+            # the nearest representable value - not the next lower one
+            knx_value = round(int(value) / cls.resolution)
             return DPTArray((knx_value >> 8, knx_value & 0xFF))
         except (ValueError, OverflowError) as err:
             raise ConversionError(
